@@ -2615,12 +2615,23 @@ func ruleInspectVisitsEverything(c *Ctx, rule string) {
 		}
 		n++
 		bad := ""
-		for _, r := range returnsOf(cb) {
-			k, isC := r.Results[0].(*ssa.Const)
-			if !isC || k.Value == nil || k.Value.String() != "true" {
+		var alwaysTrue func(f *ssa.Function, d int)
+		alwaysTrue = func(f *ssa.Function, d int) {
+			for _, r := range returnsOf(f) {
+				if k, isC := r.Results[0].(*ssa.Const); isC && k.Value != nil && k.Value.String() == "true" {
+					continue
+				}
+				// the body moved into a method the callback only forwards to
+				if call, isCall := r.Results[0].(*ssa.Call); isCall && d < 2 {
+					if g := call.Common().StaticCallee(); g != nil && len(g.Blocks) > 0 && g.Pkg == fn.Pkg && g.Signature.Results().Len() == 1 {
+						alwaysTrue(g, d+1)
+						continue
+					}
+				}
 				bad = "returns " + describe(r.Results[0]) + " at " + L.pos(r.Pos())
 			}
 		}
+		alwaysTrue(cb, 0)
 		c.check(bad == "", rule, "CollectExprImports:walks-whole-expression", L.pos(cs.instr.Pos()), "every sub-expression is visited (the callback always returns true)", bad)
 	}
 	c.floor(rule, "ast.Inspect walks in CollectExprImports", n, 1)
